@@ -81,6 +81,22 @@ def _error_case(h, ptype):
     h.check('error-is-violation-magnitude', 'eq(e, %s)' % mag, e=e, c=c)
 
 
+def _stack_error(h, outer, inner):
+    """error(x) of a stack is the root-sum-square of the levels' violation magnitudes"""
+    k, hh = h.real('k'), h.real('h')
+    h.assume('k > 0 and h > 0', k=k, h=hh)
+    c1, c2 = h.fn('cond1', ret='real'), h.fn('cond2', ret='real')
+    f = h.fn('f', ret='real')
+    inner_f = h.call(h.call(h.get(P + inner), c2, k=k, h=hh), f)
+    outer_f = h.call(h.call(h.get(P + outer), c1, k=k, h=hh), inner_f)
+    x = h.list_real('x')
+    e = h.call(h.getattr(outer_f, 'error'), x)
+    a, b = h.call(c1, x), h.call(c2, x)
+    m1 = 'abs(a)' if outer in EQ else 'max(0., a)'
+    m2 = 'abs(b)' if inner in EQ else 'max(0., b)'
+    h.check('stack-error-is-the-root-sum-square-of-the-levels-violations', 'e >= 0 and e * e == %s * %s + %s * %s' % (m1, m1, m2, m2), e=e, a=a, b=b)
+
+
 def _iter_case(h, ptype):
     """iter() advances, iter(i) sets, clear() resets n and empties the stored list; nothing else changes:
     the value of func at any x afterwards is the value of a fresh penalty at that n"""
@@ -154,6 +170,9 @@ def _mk(ptype):
 
 for _p in EQ + INEQ:
     _mk(_p)
+for _k, _o in enumerate(EQ + INEQ):        # every type once as the outer level, over a varying inner type
+    _i = (EQ + INEQ)[(_k + 3) % 9]
+    contract('C15/stack-error/%s(%s)' % (_o, _i), ['C15'], P + _o + '.error')(lambda h, o=_o, i=_i: _stack_error(h, o, i))
 
 for _o, _i in [('quadratic_equality', 'quadratic_inequality'), ('linear_inequality', 'quadratic_equality'),
                ('uniform_equality', 'linear_equality'), ('quadratic_inequality', 'uniform_inequality'),
@@ -197,6 +216,11 @@ def _lagrange_stored(h, ptype):
     """store(x, i): _y[i] = condition(x), zero padding below; stored(i) gives it back, 0.0 beyond the list"""
     k, hh, cond, f, func, n = _setup(h, ptype, 'zero')
     store, stored = h.getattr(func, 'store'), h.getattr(func, 'stored')
+    # the penalty may already have been advanced: an EXPLICIT index (0 included) addresses that iteration's slot,
+    # whatever the current iteration is
+    m = h.int('iterations_done_before')
+    h.assume('m >= 0', m=m)
+    h.call(h.getattr(func, 'iter'), m)
     x = h.list_real('x')
     i = h.int('i')
     h.assume('i >= 0', i=i)
